@@ -334,6 +334,12 @@ pub fn c17_differential(case: &Case) -> Vec<Failure> {
             return out;
         };
         let so = &without.steps[i];
+        // a directory or symlink that occupies the name of the next WAL file makes the roll-over fail with an I/O
+        // error (create_new refuses the name): the entry is left alone, which is all the statement asks for
+        let wal_named_foreign = case.foreign.iter().any(|f| crate::simfs::is_wal_name(&f.name));
+        if wal_named_foreign && matches!(sw.outcome, Outcome::Err(crate::model::ErrKind::Io)) && !so.outcome.is_err() {
+            return out;
+        }
         if sw.outcome != so.outcome {
             out.push(fail("C17", "foreign-entry-changed-behaviour", i, format!("op {} {} returned {:?} with foreign directory entries present and {:?} without them", i, so.op.short(), sw.outcome, so.outcome)));
             return out;
